@@ -23,6 +23,8 @@ func init() {
 		}
 		return s
 	})
+	// schema inference is reflection over key/value types and only fills descriptive metadata
+	reg("github.com/sharedcode/sop.InferSchemaFromTypes", noop)
 	// contextName is only used for String()
 	reg("context.contextName", func(m *Machine, fr *frame, fn *ssa.Function, args []value) value { return "ctx" })
 }
